@@ -980,3 +980,138 @@ def c08_lost_wakeup(env):
 
 
 REGISTRY.setdefault("C08", []).append(c08_lost_wakeup)
+
+
+# ======================================================================================
+# C09: automatic credit replenishment
+# ======================================================================================
+
+
+def c09_topup(env):
+    out = []
+    # (a) every site that counts disposed deliveries hands the *updated* count to the top-up check
+    sites = [
+        ("c09_count_dispose_disposer", r"^receiver::<impl at [^>]*>::dispose::\{closure#0\}$", r"ReceiverDisposer::dispose\(\)", r"refresh_credit_if_needed$"),
+        ("c09_count_dispose", r"^receiver::<impl at [^>]*>::dispose::\{closure#0\}$", r"ReceiverInner<L>::dispose<", r"update_credit_if_auto$"),
+        ("c09_count_dispose_all", r"^receiver::<impl at [^>]*>::dispose_all::\{closure#0\}$", r"ReceiverInner<L>::dispose_all\(\)", r"update_credit_if_auto$"),
+    ]
+    for name, pat, sig, callee_pat in sites:
+        o = Obligation(name, "C09")
+        fn = env.fn(pat, sig=sig)
+        o.functions = [fn.name]
+        o.desc = "after disposing k deliveries the top-up check is evaluated on the processed count INCLUDING those k (previous count + k), so the disposal that reaches the threshold triggers the flow"
+        o.bounds = ["coroutine body from its initial state, every await completing or pending; all 32-bit counts"]
+        ex = env.executor(max_visits=3)
+        pin, cor = coroutine_start(env, "@self")
+        paths = ex.run(fn, {"_1": pin, "@cor": cor, "@self": mir.Agg("self")})
+        n = 0
+        import re as _re
+
+        for i, p in enumerate(paths):
+            fa = [c for c in p.calls if c[0].endswith("::fetch_add")]
+            up = [c for c in p.calls if _re.search(callee_pat, c[0])]
+            if not fa or not up:
+                continue
+            n += 1
+            prev, amount = fa[0][3], fa[0][1][1]
+            arg = up[0][1][1]
+            single = 0 if "dispose_all" in name else 1
+
+            def replay_count(m, single=single):
+                # directed native probe of the same fact: Auto(n), nothing processed before, a disposal of
+                # k = n (batch) resp. 1 with n = 2 (single) reaches the threshold only if it is counted
+                n_, k_ = (4, 4) if not single else (2, 1)
+                return f"topup {n_} 0 {k_} {single}", (lambda js: js.get("panic") or not js["ok"] or js["flows"] != 1 or js["processed_after"] != 0)
+
+            if "disposer" in name:
+                replay_count = None  # ReceiverDisposer has no native step in the facade
+            o.prove(f"path{i}:threshold-check-sees-this-disposal", ex.assumptions + up[0][2], arg == prev + amount, replay=replay_count)
+        for i, p in enumerate(paths):
+            fa = [c for c in p.calls if c[0].endswith("::fetch_add")]
+            up = [c for c in p.calls if _re.search(callee_pat, c[0])]
+            if fa and not up and p.end == "return":
+                # counted but never checked: only acceptable if the path fails before (unwind) -- a
+                # normal return after counting without the check would starve the sender
+                ready, ok = poll_ready_result(p.ret)
+                if ok is not None:
+                    o.prove(f"path{i}:counted-implies-checked", ex.assumptions + p.cond, z3.Not(z3.And(ready, ok)))
+        o.cover("a path that counts and checks exists", [z3.BoolVal(n > 0)])
+        out.append(o)
+    # (b) the top-up itself: a flow with link-credit = n is produced exactly when processed >= n/2 in Auto(n)
+    for name, pat, sig, send_pat in (
+        ("c09_topup_threshold_inner", r"^receiver::<impl at [^>]*>::update_credit_if_auto::\{closure#0\}$", None, r"ReceiverLink>::send_flow$"),
+        ("c09_topup_threshold_disposer", r"^receiver::<impl at [^>]*>::refresh_credit_if_needed::\{closure#0\}$", None, r"mpsc::Sender::<.*>::send$"),
+    ):
+        o = Obligation(name, "C09")
+        fn = env.fn(pat, sig=sig)
+        o.functions = [fn.name]
+        o.desc = "automatic credit: with Auto(n) a flow re-issuing link-credit n is produced, and the processed counter reset, exactly when processed >= n/2 (so after every disposal for n = 1); Manual mode never does"
+        o.bounds = ["coroutine body from its initial state; all n and processed (32 bit)"]
+        ex = env.executor()
+        struct = "ReceiverInner" if "inner" in name else "ReceiverDisposer"
+        R = mir.Agg("recv")
+        mode = mir.Agg("CreditMode")
+        mode_d = z3.BitVec("credit_mode", 64)
+        mode["#d"] = mode_d
+        mx = BV32("auto.max_credit")
+        sub = mir.Agg("Auto")
+        sub[0] = mx
+        mode[("as", "Auto")] = sub
+        R[env.fidx(struct, "credit_mode")] = mode
+        processed = BV32("processed")
+        pin, cor = coroutine_start(env, "@self", {1: processed})
+        cor[0] = mir.Ref(("@self",), False)
+        paths = ex.run(fn, {"_1": pin, "@cor": cor, "@self": R})
+        E = env.enums["CreditMode"]
+        hyp = ex.assumptions + [z3.ULE(mode_d, 1)]
+        due = z3.And(mode_d == E["Auto"], z3.UGE(processed, z3.UDiv(mx, z3.BitVecVal(2, 32))))
+        n = 0
+        for i, p in enumerate(paths):
+            if p.end != "return":
+                continue
+            n += 1
+            resets = count_calls(p, r"Atomic::<u32>::store$")
+            sends = count_calls(p, send_pat)
+            ready, ok = poll_ready_result(p.ret)
+            def replay_thr(m, mx=mx, processed=processed, mode_d=mode_d):
+                n_ = max(1, min(model_value(m, mx), 40))
+                pr = min(model_value(m, processed), 40)
+                # one single disposal on a receiver that had processed pr-1 before (so the check sees pr)
+                if pr == 0 or model_value(m, mode_d) != E["Auto"]:
+                    raise RuntimeError("no native probe for this model")
+                want = 1 if pr >= n_ // 2 else 0
+                return f"topup {n_} {pr - 1} 1 1", (lambda js: js.get("panic") or js["flows"] != want)
+
+            if "disposer" in name:
+                replay_thr = None
+            if resets or sends:
+                o.prove(f"path{i}:topup-only-when-due", hyp + p.cond, due, replay=replay_thr)
+            else:
+                # returned without producing a flow: only if not due, or failing
+                if ok is not None:
+                    o.prove(f"path{i}:due-topup-not-skipped", hyp + p.cond + [ready, ok], z3.Not(due), replay=replay_thr)
+            if sends:
+                o.prove(f"path{i}:counter-reset-with-topup", hyp + p.cond, z3.BoolVal(resets == 1))
+        o.cover("paths", [z3.BoolVal(n > 0)])
+        out.append(o)
+    # (c) arithmetic lemma: with the threshold evaluated on the updated count, a sender that respects
+    # credit and an application that disposes what it received can never be left with credit 0 and
+    # nothing pending:  invariant  credit + undisposed + processed >= n  (n >= 1)
+    o = Obligation("c09_no_stall_lemma", "C09")
+    o.desc = "no-stall lemma over the counters (credit c, received-but-undisposed r, processed p, Auto(n)): the invariant c + r + p >= n is preserved by receive (c-1, r+1), dispose of k<=r (r-k, p+k, then top-up if p+k >= n/2: c:=n, p:=0), and with it c = 0 and r = 0 imply the last disposal triggered the top-up"
+    o.functions = ["(lemma over the step relations established by c09_count_* and c09_topup_threshold_* and C09's Kani harness c09_receiver_consume)"]
+    o.bounds = ["n, c, r, p < 2^30 (no wrap); single steps"]
+    n_, c_, r_, p_, k_ = [z3.BitVec(x, 32) for x in ("n", "c", "r", "p", "k")]
+    small = [z3.ULT(x, 1 << 30) for x in (n_, c_, r_, p_, k_)] + [z3.UGE(n_, 1)]
+    inv = lambda c, r, p: z3.And(z3.UGE(c + r + p, n_), z3.ULT(p, z3.If(n_ == 1, z3.BitVecVal(1, 32), z3.UDiv(n_, z3.BitVecVal(2, 32))) + 0) if False else z3.UGE(c + r + p, n_))  # noqa: E731
+    below = z3.ULT(p_, z3.UDiv(n_, z3.BitVecVal(2, 32)))  # no top-up pending before the step
+    o.prove("receive-preserves", small + [inv(c_, r_, p_), z3.UGT(c_, 0)], inv(c_ - 1, r_ + 1, p_))
+    due = z3.UGE(p_ + k_, z3.UDiv(n_, z3.BitVecVal(2, 32)))
+    o.prove("dispose-preserves", small + [inv(c_, r_, p_), z3.ULE(k_, r_), z3.UGE(k_, 1)], z3.If(due, inv(n_, r_ - k_, z3.BitVecVal(0, 32)), inv(c_, r_ - k_, p_ + k_)))
+    o.prove("no-stall", small + [inv(c_, r_, p_), z3.ULE(k_, r_), z3.UGE(k_, 1), c_ == 0, r_ - k_ == 0, below], due)
+    o.cover("lemma hypotheses satisfiable", small + [inv(c_, r_, p_), z3.ULE(k_, r_), z3.UGE(k_, 1), c_ == 0, r_ == k_, below])
+    out.append(o)
+    return out
+
+
+REGISTRY.setdefault("C09", []).append(c09_topup)
